@@ -30,8 +30,14 @@ DB = 'pylatexenc.macrospec._latexcontextdb.LatexContextDb'
 KINDS = ('macros', 'environments', 'specials')
 
 HAS = z3.Function('dict_has', z3.IntSort(), z3.IntSort(), z3.BoolSort())
+NONEMPTY = z3.Function('dict_nonempty', z3.IntSort(), z3.BoolSort())
 VAL = z3.Function('dict_val', z3.IntSort(), z3.IntSort(), z3.IntSort())
 AUTOGEN = z3.Function('is_autogen_name', z3.IntSort(), z3.BoolSort())
+# an iterable of specs, seen through the dictionary  dict((x.<its name>, x) for x in iterable)  built from it:
+LISTHAS = z3.Function('iterable_defines', z3.IntSort(), z3.IntSort(), z3.BoolSort())     # some spec in it has this name
+LISTVAL = z3.Function('iterable_last_def', z3.IntSort(), z3.IntSort(), z3.IntSort())     # the last spec in it with this name
+VALUES_OF = z3.Function('dict_values', z3.IntSort(), z3.IntSort())                       # d.values()
+NAME_ATTRS = ('macroname', 'environmentname', 'specials_chars')
 EMPTY_DICT = z3.Int('EMPTY_DICT')
 NONE_SPEC = -1
 
@@ -49,6 +55,10 @@ class SymDict(object):
 
     def pyvc_contains(self, it, key):
         return has(self.term, name_code(it, key))
+
+    def pyvc_truth(self, it):
+        # bool(d): whether the dictionary has any key; nothing else is known about it here (an uninterpreted predicate of d)
+        return NONEMPTY(zint(self.term))
 
     def pyvc_index(self, it, key, src=''):
         if V.is_str(key):
@@ -77,7 +87,15 @@ class SymDict(object):
                 return None
             return Builtin('dict.update', upd)
         if name == 'values':
-            return Builtin('dict.values', lambda it2, a, k: AbsVal(it2.ctx.fresh_int('values'), 'abslist'))
+            def values(it2, a, k):
+                # A-DB: every dictionary of a database stores each spec under the spec's own name (that is how
+                # add_context_category / extended_with build them), so re-keying d.values() by name gives d's content
+                t = VALUES_OF(zint(self.term))
+                kk = z3.Int('vk!%d' % it2.ctx.next_id())
+                it2.ctx.assume(z3.ForAll([kk], z3.And(LISTHAS(t, kk) == has(self.term, kk),
+                                                      LISTVAL(t, kk) == VAL(zint(self.term), kk))))
+                return AbsVal(t, 'abslist')
+            return Builtin('dict.values', values)
         if name == 'keys':
             return Builtin('dict.keys', lambda it2, a, k: KeysList(it2, self.term))
         raise EngineError('SymDict.%s' % name)
@@ -119,6 +137,16 @@ def merged_dict(it, base, overlay):
     ctx.assume(z3.ForAll([k], z3.And(
         HAS(nd, k) == z3.Or(has(base, k), has(overlay, k)),
         VAL(nd, k) == z3.If(has(overlay, k), VAL(zint(overlay), k), VAL(zint(base), k)))))
+    return nd
+
+
+def dict_of_iterable(it, t):
+    """id of the dictionary  dict((x.<name>, x) for x in <iterable t>)"""
+    ctx = it.ctx
+    nd = ctx.fresh_int('dictof')
+    k = z3.Int('dk!%d' % ctx.next_id())
+    ctx.assume(nd != EMPTY_DICT)
+    ctx.assume(z3.ForAll([k], z3.And(HAS(nd, k) == LISTHAS(zint(t), k), VAL(nd, k) == LISTVAL(zint(t), k))))
     return nd
 
 
@@ -338,13 +366,24 @@ def register(reg):
     # comprehension over an abstract list / dict(abstract iterable): the interpreter evaluates the iterable once and
     # offers it to these hooks before iterating
     def comp_abslist(it, node, frame, src):
+        import ast as _ast
         if len(node.generators) == 1 and isinstance(src, AbsVal) and src.kind == 'abslist':
+            g, e = node.generators[0], node.elt
+            if (not g.ifs and isinstance(g.target, _ast.Name) and isinstance(e, _ast.Tuple) and len(e.elts) == 2
+                    and isinstance(e.elts[0], _ast.Attribute) and e.elts[0].attr in NAME_ATTRS
+                    and isinstance(e.elts[0].value, _ast.Name) and e.elts[0].value.id == g.target.id
+                    and isinstance(e.elts[1], _ast.Name) and e.elts[1].id == g.target.id):
+                return AbsVal(src.term, 'keyed')       # ((x.name, x) for x in iterable): the iterable, keyed by name
             return AbsVal(it.ctx.fresh_int('comp'), 'abslist')
         return None
     reg.comp_hooks = getattr(reg, 'comp_hooks', [])
     reg.comp_hooks.append(comp_abslist)
 
     def bi_dict(it, args, kwargs, _orig=None):
+        if len(args) == 1 and isinstance(args[0], AbsVal) and args[0].kind == 'keyed':
+            t = dict_of_iterable(it, args[0].term)
+            it.ctx.ghost.setdefault('fresh_dicts', []).append(t)
+            return SymDict(t)
         if len(args) == 1 and isinstance(args[0], AbsVal) and args[0].kind == 'abslist':
             t = it.ctx.fresh_int('newdict')
             it.ctx.ghost.setdefault('fresh_dicts', []).append(t)
@@ -432,22 +471,93 @@ def register(reg):
 
     OLD = 'old(self.category_list)'
     POSITION = ("(0 if prepend else "
-                "((first_index(%s, insert_before) if insert_before in %s else 0) if insert_before is not None else "
-                "((first_index(%s, insert_after) + 1 if insert_after in %s else len(%s)) if insert_after is not None else "
+                "((first_index(%s, insert_before) if insert_before in %s else 0) if insert_before else "
+                "((first_index(%s, insert_after) + 1 if insert_after in %s else len(%s)) if insert_after else "
                 "len(%s))))" % (OLD, OLD, OLD, OLD, OLD, OLD))
+    NEWCAT = 'new_cat(self, %s, category)' % POSITION
     UNCHANGED = [('category-list-unchanged', 'same_list(self.category_list, %s)' % OLD),
-                 ('frozen-flag-unchanged', 'self.frozen == old(self.frozen)')]
-    c_add = reg.add(Contract(
-        DB + '.add_context_category', setup=setup_add,
-        requires=DB_INV,
-        ensures=[('inserted-at-the-documented-position',
-                  'is_insert(self.category_list, %s, %s, category)' % (OLD, POSITION)),
-                 ('was-not-frozen', 'not old(self.frozen)'),
-                 ('was-a-new-name', 'not (category in %s)' % OLD)] + DB_INV,
+                 ('frozen-flag-unchanged', 'self.frozen == old(self.frozen)'),
+                 ('definitions-unchanged', 'same_D(self, old(self.d))'),
+                 ('chain-maps-unchanged', 'maps_unchanged(self, OLDMAPS)')]
+
+    @reg.spec('new_cat')
+    def new_cat(it, db, pos, category):
+        """the category added by the call: the one given, or the (automatically named) one now at the insert position"""
+        return category if category is not None else mk_cat(db.fields['category_list'].arr[zint(pos)])
+
+    @reg.spec('dict_of')
+    def dict_of(it, d, lst):
+        """dictionary d == dict((x.<name>, x) for x in lst)"""
+        k = z3.Int('do!%d' % it.ctx.next_id())
+        d = zint(d)
+        if isinstance(lst, AbsVal) and lst.kind == 'abslist':
+            return z3.ForAll([k], z3.And(has(d, k) == LISTHAS(zint(lst.term), k),
+                                         z3.Implies(has(d, k), VAL(d, k) == LISTVAL(zint(lst.term), k))))
+        if lst is None or lst == () or (isinstance(lst, PyList) and lst.items is not None and len(lst.items) == 0):
+            return z3.ForAll([k], z3.Not(has(d, k)))
+        raise EngineError('dict_of(%r)' % (lst,))
+
+    def snap_oldmaps(it, vars_):
+        vars_.update(OLDMAPS=PyDict({k: PyList(None, vars_['self'].fields['lookup_chain_maps'].items[k].maps.length,
+                                                vars_['self'].fields['lookup_chain_maps'].items[k].maps.arr, 'maps', DICT_CODEC)
+                                     for k in KINDS}))
+
+    # what a call (seen through its contract) does to the representation: all three parts are replaced by unknown ones
+    def havoc_cats(it, hint, cur):
+        n = it.ctx.fresh_int('ncats')
+        it.ctx.assume(n >= 0)
+        return PyList(None, n, z3.Array('cats!%d' % it.ctx.next_id(), z3.IntSort(), z3.IntSort()), 'category_list', CAT_CODEC)
+    havoc_cats.wants_current = True
+
+    def havoc_d(it, hint, cur):
+        return CatMap({k: z3.Array('d.%s!%d' % (k, it.ctx.next_id()), z3.IntSort(), z3.IntSort()) for k in KINDS})
+    havoc_d.wants_current = True
+
+    def havoc_maps(it, hint, cur):
+        return PyDict({k: ChainMapVal(fresh_maps(it, 'maps.' + k)) for k in KINDS})
+    havoc_maps.wants_current = True
+    REPR = [('self.category_list', havoc_cats), ('self.d', havoc_d), ('self.lookup_chain_maps', havoc_maps)]
+
+    ADD_ENSURES = [
+        ('inserted-at-the-documented-position', 'is_insert(self.category_list, %s, %s, %s)' % (OLD, POSITION, NEWCAT)),
+        ('was-not-frozen', 'not old(self.frozen)'),
+        ('was-a-new-name', 'not (%s in %s)' % (NEWCAT, OLD)),
+        ('an-internal-name-only-when-none-is-given', 'implies(category is None, is_auto(%s))' % NEWCAT),
+        ('other-categories-keep-their-definitions', 'same_D(self, old(self.d), %s)' % NEWCAT),
+    ] + [('the-new-category-defines-the-given-%s' % k, "dict_of(D(self, '%s', code(%s)), %s)" % (k, NEWCAT, k)) for k in KINDS] + [
+        ('frozen-flag-unchanged', 'self.frozen == old(self.frozen)'),
+        ('unknown-specs-unchanged', 'self.unknown_macro_spec is old(self.unknown_macro_spec) and '
+                                    'self.unknown_environment_spec is old(self.unknown_environment_spec) and '
+                                    'self.unknown_specials_spec is old(self.unknown_specials_spec)'),
+    ] + DB_INV
+    reg.spec('is_auto')(lambda it, c: AUTOGEN(zint(c.term)))
+    MORE_THAN_ONE = '((1 if prepend else 0) + (1 if insert_before else 0) + (1 if insert_after else 0)) > 1'
+
+    def setup_add_any(it):
+        v = setup_add(it)
+        if it.ctx.choose(2, 'category given') == 0:
+            v['category'] = None
+        return v
+
+    # the worker (since the fix of filtered_context()): any name is accepted, None makes an internal one
+    c_add_worker = reg.add(Contract(
+        DB + '._add_context_category', setup=setup_add_any, requires=DB_INV, pre_state=snap_oldmaps,
+        ensures=ADD_ENSURES,
         raises={'RuntimeError': {'when': 'old(self.frozen)', 'ensures': UNCHANGED},
-                'ValueError': {'ensures': UNCHANGED},
-                'TypeError': {'ensures': UNCHANGED}},
-        modifies=['self.d', 'self._autogen_category_counter']))
+                'ValueError': {'when': 'category is not None and category in %s' % OLD, 'ensures': UNCHANGED},
+                'TypeError': {'when': MORE_THAN_ONE, 'ensures': UNCHANGED}},
+        modifies=REPR + ['self._autogen_category_counter']))
+    units['_add_context_category'] = FunctionUnit(c_add_worker)
+
+    # the public method: additionally refuses names with the prefix reserved for internal categories
+    c_add = reg.add(Contract(
+        DB + '.add_context_category', setup=setup_add_any, requires=DB_INV, pre_state=snap_oldmaps,
+        ensures=ADD_ENSURES + [('a-given-name-is-not-a-reserved-one', 'implies(category is not None, not is_auto(category))')],
+        raises={'RuntimeError': {'when': 'old(self.frozen)', 'ensures': UNCHANGED},
+                'ValueError': {'when': 'category is not None and (is_auto(category) or category in %s)' % OLD,
+                               'ensures': UNCHANGED},
+                'TypeError': {'when': MORE_THAN_ONE, 'ensures': UNCHANGED}},
+        modifies=REPR + ['self._autogen_category_counter']))
     units['add_context_category'] = FunctionUnit(c_add)
 
     # ---- frozen flag / unknown specs / categories ---------------------------------------------------------------
@@ -591,7 +701,7 @@ def register(reg):
         for k in KINDS:
             body = a.fields['d'].arrs[k][c] == b_catmap.arrs[k][c]
             if except_cat is not None:
-                body = z3.Or(c == zint(except_cat), body)
+                body = z3.Or(c == zint(except_cat.term if isinstance(except_cat, AbsVal) else except_cat), body)
             out.append(z3.ForAll([c], body))
         return z_and(*out)
 
@@ -645,6 +755,145 @@ def register(reg):
         modifies=['self._autogen_category_counter']))
     reg.spec('cat_is_auto')(lambda it, lst, i: AUTOGEN(lst.arr[zint(i)]))
     units['extended_with'] = FunctionUnit(c_ext, inline={DB + '.__init__'})
+
+    # ---- filtered_context: copy-on-derive, category order = the kept sub-sequence --------------------------------
+    # keep_categories / exclude_categories: containers of names of which only membership and emptiness are used
+    INSET = z3.Function('name_in_container', z3.IntSort(), z3.IntSort(), z3.BoolSort())
+    KB = z3.Function('kept_before', z3.IntSort(), z3.IntSort())     # K(j): how many of cats[0:j] the filter keeps
+    SRCF = z3.Function('kept_source', z3.IntSort(), z3.IntSort())   # the index in cats of the p-th kept category
+
+    class NameSet(object):
+        def __init__(self, ident, nonempty):
+            self.ident, self.nonempty = ident, nonempty
+
+        def pyvc_truth(self, it):
+            return self.nonempty
+
+        def pyvc_contains(self, it, key):
+            return z3.And(V.zbool(self.nonempty), INSET(self.ident, zint(key.term)))
+
+    def kept_term(it, j):
+        g = it.ctx.ghost['filter']
+        c = g['cats'].arr[zint(j)]
+        keep, excl = g['keep'], g['excl']
+        return z3.And(z3.Or(z3.Not(V.zbool(keep.nonempty)), INSET(keep.ident, c)),
+                      z3.Not(z3.And(V.zbool(excl.nonempty), INSET(excl.ident, c))))
+    reg.spec('kept')(lambda it, j: kept_term(it, j))
+    @reg.spec('kept_before')
+    def kept_before(it, j):
+        # K is defined by recursion; each mention unfolds the definition once (an instance of the defining equation)
+        t = zint(j)
+        it.ctx.assume(z3.Implies(t > 0, KB(t) == KB(t - 1) + z3.If(kept_term(it, t - 1), 1, 0)))
+        return KB(t)
+    reg.spec('kept_source')(lambda it, p: SRCF(zint(p)))
+    reg.spec('keeps_kind')(lambda it, kind: kind in it.ctx.ghost['filter']['kinds'])
+
+    def filter_axioms(it):
+        """K(0) = 0 (the recursion K(j+1) = K(j) + [kept(j)] is unfolded where K is mentioned), the definition of K's inverse on
+        kept indices, and the consequences of the recursion that the proof uses (K >= 0; K increases strictly across a kept index);
+        those, and that the inverse is well defined, are proved from the recursion by induction in the lemma unit
+        'filter-count-lemmas'.  Triggers are given explicitly so that instantiation stays finite."""
+        j, a, b = z3.Ints('fj fa fb')
+        kept = lambda x: kept_term(it, x)
+        return [KB(0) == 0,
+                z3.ForAll([j], z3.Implies(j >= 0, KB(j) >= 0), patterns=[KB(j)]),
+                z3.ForAll([j], z3.Implies(z3.And(j >= 0, kept(j)), SRCF(KB(j)) == j), patterns=[KB(j)]),
+                z3.ForAll([a, b], z3.Implies(z3.And(0 <= a, a < b, kept(a)), KB(a) < KB(b)),
+                          patterns=[z3.MultiPattern(KB(a), KB(b))])]
+
+    SUBSETS = [[], ['macros'], ['environments'], ['specials'], ['macros', 'environments'], ['macros', 'specials'],
+               ['environments', 'specials'], ['macros', 'environments', 'specials']]
+
+    def setup_filter(it, axioms=True):
+        ctx = it.ctx
+        db = mk_db(it, unknowns=False)
+        keep = NameSet(z3.Int('keep_categories'), sym_bool(it, 'keep_categories.nonempty'))
+        excl = NameSet(z3.Int('exclude_categories'), sym_bool(it, 'exclude_categories.nonempty'))
+        which = SUBSETS[ctx.choose(len(SUBSETS), 'keep_which')]
+        ctx.ghost['filter'] = {'cats': db.fields['category_list'], 'keep': keep, 'excl': excl,
+                               'kinds': list(which) if which else list(KINDS)}
+        if axioms:
+            for ax in filter_axioms(it):
+                ctx.assume(ax)
+        return {'self': db, 'keep_categories': keep, 'exclude_categories': excl,
+                'keep_which': PyList([w for w in which]), 'create_class': None}
+
+    def lemma_filter_counts(it):
+        """induction steps for the two consequences of K's recursion assumed in filter_axioms"""
+        ctx = it.ctx
+        setup_filter(it, axioms=False)
+        j = z3.Int('fj')
+        kept = lambda x: kept_term(it, x)
+        ctx.assume(KB(0) == 0)
+        ctx.assume(z3.ForAll([j], z3.Implies(j >= 0, KB(j + 1) == KB(j) + z3.If(kept(j), 1, 0))))
+        a, b = ctx.fresh_int('a'), ctx.fresh_int('b')
+        ctx.assume(z3.And(0 <= a, a <= b))
+        # non-negative, by induction (base K(0) == 0; step)
+        ctx.prove('filter-count:non-negative:step', z3.Implies(KB(a) >= 0, KB(a + 1) >= 0), 'lemma')
+        # monotone, by induction on b (base b == a; step b -> b + 1)
+        ctx.prove('filter-count:monotone:base', KB(a) <= KB(a), 'lemma')
+        ctx.prove('filter-count:monotone:step', z3.Implies(KB(a) <= KB(b), KB(a) <= KB(b + 1)), 'lemma')
+        # strictly increasing across a kept index: K(a) < K(a + 1) <= K(b) from the recursion and monotonicity
+        mono = z3.ForAll([z3.Int('fa'), z3.Int('fb')], z3.Implies(z3.And(0 <= z3.Int('fa'), z3.Int('fa') <= z3.Int('fb')),
+                                                                  KB(z3.Int('fa')) <= KB(z3.Int('fb'))))
+        ctx.assume(mono)
+        ctx.prove('filter-count:strict-across-a-kept-index', z3.Implies(z3.And(a < b, kept(a)), KB(a) < KB(b)), 'lemma')
+        # the inverse is well defined: K is injective on kept indices
+        ctx.prove('filter-count:inverse-well-defined',
+                  z3.Implies(z3.And(a < b, kept(a), kept(b)), KB(a) != KB(b)), 'lemma')
+    units['filter-count-lemmas'] = LemmaUnit('filter-count-lemmas', lemma_filter_counts, functions=[DB + '.filtered_context'])
+
+    @reg.spec('same_content')
+    def same_content(it, d1, d2):
+        k = z3.Int('sc!%d' % it.ctx.next_id())
+        return z3.ForAll([k], z3.And(has(d1, k) == has(d2, k), z3.Implies(has(d1, k), VAL(zint(d1), k) == VAL(zint(d2), k))))
+
+    @reg.spec('no_keys')
+    def no_keys(it, d):
+        k = z3.Int('nk!%d' % it.ctx.next_id())
+        return z3.ForAll([k], z3.Not(has(d, k)))
+
+    def FILTERED(nc, upto):
+        """the view of the derived database `nc` after the first `upto` categories of the parent have been looked at"""
+        out = [
+            ('length-is-the-number-of-kept-categories', 'len(%s.category_list) == kept_before(%s)' % (nc, upto)),
+            ('kept-categories-in-the-order-of-the-parent',
+             'forall(0, %s, lambda j: implies(kept(j), cat_at(%s, kept_before(j)) == cat_at(self, j)))' % (upto, nc)),
+            ('nothing-but-kept-categories',
+             'forall(0, len(%s.category_list), lambda p: 0 <= kept_source(p) and kept_source(p) < %s and kept(kept_source(p)) '
+             'and kept_before(kept_source(p)) == p and cat_at(%s, p) == cat_at(self, kept_source(p)))' % (nc, upto, nc)),
+        ]
+        for k in KINDS:
+            out.append(('kept-categories-keep-their-%s-if-that-kind-is-kept' % k,
+                        "forall(0, %s, lambda j: implies(kept(j), "
+                        "same_content(D(%s, '%s', cat_at(self, j)), D(self, '%s', cat_at(self, j))) if keeps_kind('%s') "
+                        "else no_keys(D(%s, '%s', cat_at(self, j)))))" % (upto, nc, k, k, k, nc, k)))
+        out.append(('unknown-specs-carried-over',
+                    '%s.unknown_macro_spec is self.unknown_macro_spec and %s.unknown_environment_spec is '
+                    'self.unknown_environment_spec and %s.unknown_specials_spec is self.unknown_specials_spec' % (nc, nc, nc)))
+        out.append(('unfrozen', '%s.frozen == False' % nc))
+        return out + [(n, c.replace('self', nc)) for n, c in DB_INV]
+
+    PARENT_SAME = [('parent-category-order-unchanged', 'same_list(self.category_list, %s)' % OLDC),
+                   ('parent-definitions-unchanged', 'same_D(self, old(self.d))'),
+                   ('parent-chain-maps-unchanged', 'maps_unchanged(self, OLDMAPS)'),
+                   ('parent-frozen-flag-unchanged', 'self.frozen == old(self.frozen)')]
+    c_filt = reg.add(Contract(
+        DB + '.filtered_context', setup=setup_filter, requires=DB_INV, pre_state=snap_oldmaps,
+        ensures=[('a-new-object', 'result is not self')] + PARENT_SAME
+                + [('internal:no-dictionary-of-the-parent-is-updated-in-place', 'only_new_dictionaries_updated()')]
+                + FILTERED('result', 'len(self.category_list)'),
+        raises={},          # filtering never fails, whatever names (internal ones included) the parent holds
+        modifies=[]))
+    reg.add_loop(LoopContract(
+        DB + '.filtered_context', 0, index='fi',
+        havoc={'new_context.category_list': lambda it, hint: havoc_cats(it, hint, None),
+               'new_context.d': lambda it, hint: havoc_d(it, hint, None),
+               'new_context.lookup_chain_maps': lambda it, hint: havoc_maps(it, hint, None)},
+        havoc_fields=['new_context.category_list', 'new_context.d', 'new_context.lookup_chain_maps',
+                      'new_context._autogen_category_counter'],
+        invariant=[('the-derived-object-is-not-the-parent', 'new_context is not self')] + PARENT_SAME + FILTERED('new_context', 'fi')))
+    units['filtered_context'] = FunctionUnit(c_filt, inline={DB + '.__init__'})
 
     for k in units:
         contracts.REPLAYERS[k] = replay
